@@ -12,7 +12,8 @@
     capAddPathFromConfig / capabilitiesFromConfig    -> capAddPathFromConfig / capsFromConfig
     buildopen                                        -> buildOpen
     recvMessageWithError (length gate, options)      -> recvMaxLen / recvOpts
-    sendMessageloop `send` + BGPMessage.Serialize    -> sendMaxLen / sendOpts
+    sendMessageloop `send` + BGPMessage.Serialize    -> sendMaxLen / sendOpts / serializeFits / sendWrites
+    fsm.sendNotification                             -> notifWrites
     keepaliveTicker, hold timer of openconfirm/established -> tickerSecs / holdTimerSecs
 
   Representation choices (all only re-encodings, none changes a decision):
@@ -407,6 +408,30 @@ def sendMaxLen (s : PeerState) (t : MsgType) : Nat :=
     | .update | .notification | .routeRefresh => 65535
     | _ => 4096
   else 4096
+
+/-- BGP_HEADER_LENGTH: every length limit is on the TOTAL message, header included -/
+def headerLen : Nat := 19
+
+/-- recvMessageWithError's gate, `hd.Len > maxLen` refuses: `total` is the header's length field,
+    i.e. header + body -/
+def recvFits (s : PeerState) (t : MsgType) (total : Nat) : Bool := !(total > recvMaxLen s t)
+
+/-- BGPMessage.Serialize's guard, the way the code computes it from the serialised BODY:
+    `BGP_HEADER_LENGTH+len(b) > maxLen` refuses (under the options `send` of sendMessageloop passes) -/
+def serializeFits (s : PeerState) (t : MsgType) (bodyLen : Nat) : Bool :=
+  !(headerLen + bodyLen > sendMaxLen s t)
+
+/-- what sendMessageloop's `send` puts on the wire for a message whose serialisation is `total`
+    octets long (header included): the message, or nothing (logged "failed to serialize") -/
+def sendWrites (s : PeerState) (t : MsgType) (total : Nat) : Nat :=
+  if total < headerLen then 0
+  else if serializeFits s t (total - headerLen) then total else 0
+
+/-- fsm.sendNotification serialises WITHOUT options: a NOTIFICATION is never extended, whatever
+    was negotiated; an over-long one becomes an empty write -/
+def notifWrites (total : Nat) : Nat :=
+  if total < headerLen then 0
+  else if headerLen + (total - headerLen) > 4096 then 0 else total
 
 /-- keepaliveTicker: `none` = no ticker; float seconds truncated, 0 → 1 s -/
 def tickerSecs (s : PeerState) : Option Nat :=
